@@ -583,6 +583,47 @@ fn gen_c11(rec: &mut Rec, rng: &mut Rng, scale: u64) {
             }
         }
     }
+    // several inputs one after the other on the same thread, each with a big value of the same kind at the
+    // same position but another true length (anything remembered per handle or per position across inputs
+    // shows here)
+    for kind in 0..3u64 {
+        for nested in [false, true] {
+            rec.case("c11seq");
+            let seq: &[usize] = if kind == 2 && scale == 1 { &[16383, 16385, 16384, 16390] } else { &[16383, 16385, 20000, 16384, 70000, 16383] };
+            for &n in seq {
+                let inner = mp::gen_big(rng, n, kind);
+                let doc = if nested { mp::wrap_nested(&inner) } else { inner };
+                rec.bump(&format!("c11seq:kind{}", kind));
+                rec.op(&format!("init {}", hex0(&doc)));
+                let r = rec.op("root");
+                let t = if nested {
+                    let root = r.split_whitespace().nth(1).unwrap_or("h0").to_string();
+                    rec.op(&format!("idx {} 1", root))
+                } else {
+                    r
+                };
+                let tk: Vec<&str> = t.split_whitespace().collect();
+                if tk.len() != 3 {
+                    continue;
+                }
+                let h = tk[1];
+                rec.op(&format!("a.len {}", h));
+                rec.op(&format!("len {}", h));
+                match tk[0] {
+                    "str" => {
+                        rec.op(&format!("a.str {}", h));
+                    }
+                    "arr" => {
+                        rec.op(&format!("idx {} {}", h, n - 1));
+                    }
+                    _ => {
+                        rec.op(&format!("a.key {} {}", h, n - 1));
+                        rec.op(&format!("key {} {}", h, n));
+                    }
+                }
+            }
+        }
+    }
 }
 
 // ---------------------------------------------------------------------------------- writes
@@ -1394,6 +1435,23 @@ fn gen_invocations(rec: &mut Rec, rng: &mut Rng, cases: u64) {
                 }
             }
             invs.push((doc, acts));
+        }
+        if rng.chance(1, 5) {
+            // every invocation of this thread reads a big root value of the same kind (another true length
+            // each time) through the api-level accessors: nothing remembered from the previous input may show
+            let kind = rng.below(2);
+            for (doc, acts) in invs.iter_mut() {
+                let n = *rng.pick(&[16383usize, 16384, 16385, 16390, 20000]);
+                *doc = mp::gen_big(rng, n, kind);
+                let mut pre = vec!["root".to_string(), "a.len h0".to_string(), "len h0".to_string()];
+                if kind == 0 {
+                    pre.push("a.str h0".to_string());
+                } else {
+                    pre.push(format!("idx h0 {}", n - 1));
+                }
+                pre.append(acts);
+                *acts = pre;
+            }
         }
         rec.case("c13");
         // interning may happen at any time; here before and between invocations
